@@ -48,6 +48,7 @@ func init() {
 			}},
 			{"transfer-log-on-halt", "storeBlock turns notifications into transfer-log entries only behind the VMState == Halt test", ruleTransferLogOnHalt},
 			{"scopeless-loader", "a frame loaded inside the execution closure by a function that opens no rollback scope for it (no private DAO layer, no unload callback) gets flags whose upper bound contains neither WriteStates nor AllowNotify: otherwise what it writes survives when it throws and an outer frame catches", ruleScopelessLoader},
+			{"vm-bytes-retained", "a system call or native method that keeps bytes taken from a VM item beyond the call (iterator, struct, map) clones them first: a Buffer stays writable by the contract", func(c *Ctx) { ruleVMBytesRetained(c, "pkg/core/interop/storage", "pkg/core/interop/runtime", "pkg/core/interop/contract", "pkg/core/interop/iterator", "pkg/core/interop/crypto", "pkg/core/native", "pkg/core/interop") }},
 			{"tx-commit-guard", "the per-transaction DAO layer is persisted only on the non-fault branch, it is the private layer of a context created for that transaction, and OnPersist/PostPersist persist only after a successful Exec", ruleTxCommitGuard},
 			{"unload-rollback", "the unload callback of a wrapped call persists only on commit, cuts notifications back and restores the base DAO layer on every exit; baselines are captured before the callee is loaded; the VM passes commit = no uncaught exception; ContractHasTryBlock scans every handler of every frame", ruleUnloadRollback},
 			{"exec-confinement", "in the execution closure no store targets a package-level variable or a native contract object: everything an execution writes lives in a layer that is dropped on FAULT / caught exception", ruleExecConfinement},
@@ -238,6 +239,7 @@ func init() {
 			{"check-all-loop", "a loop that rejects on a property of each element with an error return is not left early with a break (the elements after it would escape the check)", func(c *Ctx) { ruleCheckAllLoop(c, "pkg/core/storage", "pkg/core/dao") }},
 			{"limit-exclusive", "a backend scan loop that admits a key equal to the range limit (the first key after the prefix) also requires the prefix", ruleLimitExclusive},
 			{"seek-snapshot-atomic", "a range scan that merges a snapshot of the cache with a scan of the lower store starts the lower scan inside the critical section in which the snapshot was taken (known finding: it does not)", ruleSeekSnapshotAtomic},
+			{"vm-bytes-retained", "a system call or native method that keeps bytes taken from a VM item beyond the call (iterator, struct, map) clones them first: a Buffer stays writable by the contract", func(c *Ctx) { ruleVMBytesRetained(c, "pkg/core/interop/storage", "pkg/core/interop/runtime", "pkg/core/interop/contract", "pkg/core/interop/iterator", "pkg/core/interop/crypto", "pkg/core/native", "pkg/core/interop") }},
 			{"lock-pairing", "in pkg/core/storage every mutex acquired is released on every exit (conditional wrappers analysed for shared stores; the isSync-correlated unlock/relock of persist included)", func(c *Ctx) { lockPairingPkgs(c, []string{stPkg}, storageAssume, 10) }},
 			{"lockset", "every access of mem/stor/ps of a shared MemoryStore/MemCachedStore happens under the store's mutex (write lock for writes) or in a caller-holds-lock function whose call sites hold it; a function that reads a cache map and ps for one answer does so in one critical section; seek gets matching lockers", ruleStoreLockset},
 			{"swap-order", "persist replaces mem/stor/ps only under the write lock inside the plock bracket, installs the tempstore before the lower write, restores ps only after it returned, and merges concurrent writes into both old maps on failure", ruleSwapOrder},
